@@ -326,6 +326,23 @@ def run_dag(scn, *, hooks_factory=None, keep=False, extra_hooks=None, before_run
         if out.result is not None:
             out.result_list = [(t.name, body.base_of(v)) for t, v in out.result.items()]
             out.result_keys_identity = [any(t is r for r in req) for t in out.result]
+        # ---- optional second call on the SAME lab and the SAME task objects (generation 2, bust_cache)
+        sr = scn.get('second_run')
+        out.second = None
+        if sr and out.exc is None and not (hooks is not None and isinstance(hooks, GateController)):
+            n_ev, n_calls = len(events.read_events(ctl)), len(trace.calls)
+            write_plan(ctl, 2, {n: {'act': a} for n, a in (sr.get('failing') or {}).items()})
+            sec = {'exc': None, 'result_list': None}
+            signal.alarm(scn.get('watchdog_s', 150))
+            try:
+                res2 = lab.run_tasks(req, bust_cache=True, disable_progress=True, disable_top=True)
+                sec['result_list'] = [(t.name, body.base_of(v)) for t, v in res2.items()]
+            except BaseException as ex:   # noqa
+                sec['exc'] = exc_info(ex)
+            signal.alarm(0)
+            sec['events'] = events.read_events(ctl)[n_ev:]
+            sec['calls'] = trace.calls[n_calls:]
+            out.second = sec
         # post state, through a fresh Lab
         lab2 = labtech.Lab(storage=make_storage(scn.get('storage', 'local'), store),
                            runner_backend='serial')
